@@ -122,7 +122,8 @@ func propSpecs() map[string]*PropSpec {
 		"C09": {ID: "C09", Kinds: []string{"POST", "PRE", "SAFE"}, FuncMatch: regexp.MustCompile(`parser\.FormatPacketDsl$|cmd\.(init\$2|FormatPacketDslExport)$`),
 			Own:     func(o *Obligation) bool { return strings.Contains(o.Name, "C09:") || strings.Contains(o.Name, "format-error-exit") },
 			Standin: []string{"panic", "reparse", "tokens", "comments", "error-path", "outputs"},
-			Decided: []string{"on a syntax error FormatPacketDsl returns its input unchanged together with an error (postcondition, all inputs)", "format -f / -d: on a formatter error exit status 1 and no file-system effect (exits clause, all inputs)"},
+			Extra:   func(e *Engine) []*Obligation { return e.coverObligations() },
+			Decided: []string{"on a syntax error FormatPacketDsl returns its input unchanged together with an error (postcondition, all inputs)", "format -f / -d: on a formatter error exit status 1 and no file-system effect (exits clause, all inputs)", "COVER: every content element of every grammar rule (sub-rule, token with variable text, optional or repeated keyword) is read by some formatter function or printed generically with an enclosing rule - a necessary condition for retaining it; derived from the grammar, decided on the SSA"},
 			Bounded: []string{"BOUNDED (not counted as proved): on an enumerated corpus of grammar-derived sentences with comments at token boundaries, key lists of length 1..16 and fault templates, the real formatter's result re-parses, keeps the default-channel token sequence (optional ',' ';' ignored) and the comment sequence, and where the input compiles the formatted text compiles to byte-identical file sets for all six targets"},
 			OutOfReach: []string{"token / comment preservation and output equality for all inputs (COVER obligations are not built in this revision)"}},
 		"C10": {ID: "C10", Kinds: []string{"POST"}, FuncMatch: regexp.MustCompile(`parser\.FormatPacketDsl$`),
@@ -297,7 +298,9 @@ func report(e *Engine, spec *PropSpec, r *propResult, tier string, seed int, wal
 			discharged++
 			byBackend[o.Backend]++
 			newLedger.Obligations[o.Name] = "proved"
-			if len(samples) < 4 && o.Backend != "simplifier" {
+			if len(samples) < 4 && o.Backend != "simplifier" && len(o.Instances) == 0 {
+				samples = append(samples, map[string]interface{}{"obligation": o.Name, "kind": o.Kind, "goal": o.Desc, "verdict": "holds", "backend": o.Backend})
+			} else if len(samples) < 4 && o.Backend != "simplifier" {
 				samples = append(samples, map[string]interface{}{"obligation": o.Name, "kind": o.Kind, "goal": truncate(o.Instances[len(o.Instances)-1].Goal.String(), 400), "instances": len(o.Instances), "verdict": "unsat", "backend": o.Backend, "secs": o.Secs})
 			}
 			if st, ok := ledger.Obligations[o.Name]; ok && st != "proved" {
